@@ -72,13 +72,13 @@ Proof.
   split; [exact Hp|]. apply (Permutation_NoDup (l := all_items s0 ths)); [now symmetry|assumption].
 Qed.
 
-(* one more step that linearises action [a] transforms the concrete contents as the
-   sequential stack does *)
+(* one more step that linearises action [a] (alone, or together with the response of the same
+   operation) transforms the concrete contents as the sequential stack does *)
 Theorem lifo_lp_step ch s0 ths sched t a : NoDup (all_items s0 ths) ->
   let n := length (all_items s0 ths) in
   let c := run true (init ch s0 ths) sched in
   let c' := step true c t in
-  hist c' = fin_ev t a ++ hist c ->
+  hist c' = ELin t a :: hist c \/ hist c' = fin_ev t a ++ hist c ->
   astep (contents n c) a = Some (contents n c').
 Proof.
   intros Hnd n c c' Hh.
@@ -86,17 +86,17 @@ Proof.
   pose proof (lifo_linearizable ch s0 ths (sched ++ [t]) Hnd) as H2.
   cbn zeta in H1, H2. unfold run in H2. rewrite fold_left_app in H2. cbn [fold_left] in H2.
   fold (run true (init ch s0 ths) sched) in H2. fold c in H1, H2. fold c' in H2. fold n in H1, H2.
-  rewrite Hh in H2. cbn [fin_ev app replay] in H2. rewrite H1 in H2. exact H2.
+  destruct Hh as [Hh|Hh]; rewrite Hh in H2; cbn [fin_ev app replay] in H2; rewrite H1 in H2; exact H2.
 Qed.
 
 Theorem lifo_chain_keeps_order ch s0 ths sched t xs : NoDup (all_items s0 ths) ->
   let n := length (all_items s0 ths) in
   let c := run true (init ch s0 ths) sched in
   let c' := step true c t in
-  hist c' = fin_ev t (APush xs) ++ hist c ->
+  hist c' = ELin t (APush xs) :: hist c ->
   contents n c' = xs ++ contents n c.
 Proof.
-  intros Hnd n c c' Hh. pose proof (lifo_lp_step ch s0 ths sched t _ Hnd Hh) as H.
+  intros Hnd n c c' Hh. pose proof (lifo_lp_step ch s0 ths sched t _ Hnd (or_introl Hh)) as H.
   cbn [astep] in H. now inversion H.
 Qed.
 
@@ -104,7 +104,7 @@ Theorem lifo_pop_returns_top ch s0 ths sched t r : NoDup (all_items s0 ths) ->
   let n := length (all_items s0 ths) in
   let c := run true (init ch s0 ths) sched in
   let c' := step true c t in
-  hist c' = fin_ev t (APop r) ++ hist c ->
+  hist c' = ELin t (APop r) :: hist c \/ hist c' = fin_ev t (APop r) ++ hist c ->
   r = hd_error (contents n c) /\ contents n c' = tl (contents n c).
 Proof.
   intros Hnd n c c' Hh. pose proof (lifo_lp_step ch s0 ths sched t _ Hnd Hh) as H.
@@ -113,10 +113,14 @@ Proof.
 Qed.
 
 (* ---- shape of one step, as far as events and results go ---- *)
+Definition running (p : pc) : Prop := match p with Idle | PRet _ => False | _ => True end.
 Inductive shape (t : nat) (th th' : thread) : list event -> Prop :=
-  | S_start o : t_pc th = Idle -> t_pc th' <> Idle -> t_res th' = t_res th -> shape t th th' [EInv t o]
-  | S_inner : t_pc th <> Idle -> t_pc th' <> Idle -> t_res th' = t_res th -> shape t th th' []
-  | S_fin a : t_pc th <> Idle -> t_pc th' = Idle -> t_res th' = res_of a :: t_res th ->
+  | S_start o : t_pc th = Idle -> running (t_pc th') -> t_res th' = t_res th -> shape t th th' [EInv t o]
+  | S_inner : running (t_pc th) -> running (t_pc th') -> t_res th' = t_res th -> shape t th th' []
+  | S_lin a : running (t_pc th) -> t_pc th' = PRet a -> t_res th' = t_res th -> shape t th th' [ELin t a]
+  | S_ret a : t_pc th = PRet a -> t_pc th' = Idle -> t_res th' = res_of a :: t_res th ->
+              shape t th th' [ERes t (res_of a)]
+  | S_fin a : running (t_pc th) -> t_pc th' = Idle -> t_res th' = res_of a :: t_res th ->
               shape t th th' (fin_ev t a)
   | S_whole o a : t_pc th = Idle -> t_pc th' = Idle -> t_res th' = res_of a :: t_res th ->
               shape t th th' (fin_ev t a ++ [EInv t o]).
@@ -126,30 +130,35 @@ Lemma step_shape uc c t :
   exists th th' evs, nth_error (thr c) t = Some th /\ thr (step uc c t) = upd (thr c) t th' /\
                      hist (step uc c t) = evs ++ hist c /\ shape t th th' evs.
 Proof.
-  unfold step. destruct (nth_error (thr c) t) as [th|] eqn:Hth; [|now left].
-  destruct (t_pc th) as [|xs h|try k|try k it nx] eqn:Epc.
+  unfold step. destruct (nth_error (thr c) t) as [th|] eqn:Hth; [|now left]. cbn zeta.
+  destruct (t_pc th) as [|xs|xs h|try k|try k it nx| |a] eqn:Epc.
   - destruct (t_ops th) as [|o ops] eqn:Eops; [now left|]. right. exists th.
     destruct o as [j|n| | |].
     + destruct (pick j (t_own th)) as [[x own']|].
-      * eexists _, [EInv t (OPush j)]. repeat split. apply S_start; cbn; congruence.
+      * eexists _, [EInv t (OPush j)]. repeat split. apply S_start; cbn; auto.
       * eexists _, (fin_ev t (APush []) ++ [EInv t (OPush j)]). repeat split. now apply S_whole.
     + destruct (firstn n (t_own th)) as [|x r].
       * eexists _, (fin_ev t (APush []) ++ [EInv t (OChain n)]). repeat split. now apply S_whole.
-      * eexists _, [EInv t (OChain n)]. repeat split. apply S_start; cbn; congruence.
-    + eexists _, [EInv t OPop]. repeat split. apply S_start; cbn; congruence.
-    + eexists _, [EInv t OTryPop]. repeat split. apply S_start; cbn; congruence.
+      * eexists _, [EInv t (OChain n)]. repeat split. apply S_start; cbn; auto.
+    + eexists _, [EInv t OPop]. repeat split. apply S_start; cbn; auto.
+    + eexists _, [EInv t OTryPop]. repeat split. apply S_start; cbn; auto.
     + eexists _, (fin_ev t (AEmpty (is_none (hitem c))) ++ [EInv t OEmpty]). repeat split. now apply S_whole.
+  - right. exists th. eexists _, []. repeat split. apply S_inner; rewrite ?Epc; cbn; auto.
   - right. exists th. destruct (opt_eqb (hitem c) h).
-    + eexists _, (fin_ev t (APush xs)). repeat split. apply S_fin; cbn; congruence.
-    + eexists _, []. repeat split. apply S_inner; cbn; congruence.
+    + eexists _, [ELin t (APush xs)]. repeat split. apply (S_lin _ _ _ (APush xs)); rewrite ?Epc; cbn; auto.
+    + eexists _, []. repeat split. apply S_inner; rewrite ?Epc; cbn; auto.
   - right. exists th. destruct (hitem c) as [it|].
-    + eexists _, []. repeat split. apply S_inner; cbn; congruence.
-    + eexists _, (fin_ev t (APop None)). repeat split. apply S_fin; cbn; congruence.
+    + eexists _, []. repeat split. apply S_inner; rewrite ?Epc; cbn; auto.
+    + eexists _, (fin_ev t (APop None)). repeat split. apply S_fin; rewrite ?Epc; cbn; auto.
   - right. exists th. destruct ((if uc then k =? hcnt c else true) && opt_eqb (hitem c) (Some it)).
-    + eexists _, (fin_ev t (APop (Some it))). repeat split. apply S_fin; cbn; congruence.
+    + eexists _, [ELin t (APop (Some it))]. repeat split.
+      apply (S_lin _ _ _ (APop (Some it))); rewrite ?Epc; cbn; auto.
     + destruct try.
-      * eexists _, (fin_ev t ATryFail). repeat split. apply S_fin; cbn; congruence.
-      * eexists _, []. repeat split. apply S_inner; cbn; congruence.
+      * eexists _, [ELin t ATryFail]. repeat split. apply (S_lin _ _ _ ATryFail); rewrite ?Epc; cbn; auto.
+      * eexists _, []. repeat split. apply S_inner; rewrite ?Epc; cbn; auto.
+  - right. exists th. eexists _, []. repeat split. apply S_inner; rewrite ?Epc; cbn; auto.
+  - right. exists th. destruct a as [xs|[it|]| |b];
+      (eexists _, [ERes t _]; repeat split; apply S_ret; rewrite ?Epc; cbn; auto).
 Qed.
 
 (* ---- per-thread projection of the history ---- *)
@@ -170,8 +179,13 @@ Fixpoint triples (l : list event) : Prop :=
   | ERes _ r :: ELin _ a :: EInv _ _ :: l' => r = res_of a /\ triples l'
   | _ => False
   end.
+(* ... possibly below one operation in progress, before or after its linearisation point *)
 Definition thread_hist_ok (l : list event) : Prop :=
-  triples l \/ exists t o l', l = EInv t o :: l' /\ triples l'.
+  triples l \/
+  (exists t o l', l = EInv t o :: l' /\ triples l') \/
+  (exists t a o l', l = ELin t a :: EInv t o :: l' /\ triples l').
+(* value of a linearisation point whose response is still to come *)
+Definition pending (p : pc) : list res := match p with PRet a => [res_of a] | _ => [] end.
 
 Lemma shape_tid t th th' evs : shape t th th' evs -> forall e, In e evs -> ev_tid e = t.
 Proof.
@@ -203,12 +217,23 @@ Proof.
 Qed.
 
 (* invariant on histories and results, for every thread *)
+Definition th_hist_inv (t : nat) (th : thread) (h : list event) : Prop :=
+  lin_res t h = pending (t_pc th) ++ t_res th /\
+  match t_pc th with
+  | Idle => triples (proj t h)
+  | PRet a => exists o l', proj t h = ELin t a :: EInv t o :: l' /\ triples l'
+  | _ => exists o l', proj t h = EInv t o :: l' /\ triples l'
+  end.
 Definition HistInv (c : cfg) : Prop :=
-  (forall t th, nth_error (thr c) t = Some th ->
-     t_res th = lin_res t (hist c) /\
-     (t_pc th = Idle -> triples (proj t (hist c))) /\
-     (t_pc th <> Idle -> exists o l', proj t (hist c) = EInv t o :: l' /\ triples l')) /\
+  (forall t th, nth_error (thr c) t = Some th -> th_hist_inv t th (hist c)) /\
   (forall t, nth_error (thr c) t = None -> proj t (hist c) = []).
+
+Lemma running_inv t th h : running (t_pc th) -> th_hist_inv t th h ->
+  lin_res t h = t_res th /\ exists o l', proj t h = EInv t o :: l' /\ triples l'.
+Proof. unfold th_hist_inv. destruct (t_pc th); cbn; intros R [H1 H2]; try contradiction; now split. Qed.
+Lemma running_intro t th h : running (t_pc th) ->
+  lin_res t h = t_res th -> (exists o l', proj t h = EInv t o :: l' /\ triples l') -> th_hist_inv t th h.
+Proof. unfold th_hist_inv. destruct (t_pc th); cbn; intros R H1 H2; try contradiction; now split. Qed.
 
 Lemma step_HistInv uc c t : HistInv c -> HistInv (step uc c t).
 Proof.
@@ -219,21 +244,32 @@ Proof.
   - intros u thu Hu. rewrite Ethr in Hu. rewrite Ehist.
     destruct (Nat.eq_dec u t) as [->|Hne].
     + rewrite (nth_upd_same _ _ _ _ Hth) in Hu. inversion Hu; subst thu. clear Hu.
-      destruct (H1 _ _ Hth) as (Hr & Hi & Hn).
-      unfold proj. rewrite filter_app. fold (proj t evs) (proj t (hist c)).
-      rewrite (proj_own _ _ Htid), lin_res_app.
-      destruct Hsh as [o Hp Hp' Hres|Hp Hp' Hres|a Hp Hp' Hres|o a Hp Hp' Hres].
-      * split; [cbn; congruence|]. split; [congruence|]. intros _. exists o, (proj t (hist c)).
-        split; [reflexivity|]. now apply Hi.
-      * split; [cbn; congruence|]. split; [congruence|]. intros _. now apply Hn.
-      * split; [cbn; rewrite Nat.eqb_refl; cbn; congruence|]. split; [|congruence]. intros _.
-        destruct (Hn Hp) as (o & l' & -> & Hl'). cbn. now split.
-      * split; [cbn; rewrite Nat.eqb_refl; cbn; congruence|]. split; [|congruence]. intros _.
-        cbn. split; [reflexivity|]. now apply Hi.
+      pose proof (H1 _ _ Hth) as Hi.
+      assert (Hpj : proj t (evs ++ hist c) = evs ++ proj t (hist c)).
+      { unfold proj. rewrite filter_app. fold (proj t evs) (proj t (hist c)). now rewrite (proj_own _ _ Htid). }
+      destruct Hsh as [o Hp Hp' Hres|Hp Hp' Hres|a Hp Hp' Hres|a Hp Hp' Hres|a Hp Hp' Hres|o a Hp Hp' Hres].
+      * unfold th_hist_inv in Hi. rewrite Hp in Hi. cbn in Hi. destruct Hi as [Hl Ht].
+        apply running_intro; [assumption|rewrite lin_res_app; cbn; congruence|].
+        rewrite Hpj. exists o, (proj t (hist c)). now split.
+      * destruct (running_inv _ _ _ Hp Hi) as [Hl Ht].
+        apply running_intro; [assumption|cbn; congruence|exact Ht].
+      * destruct (running_inv _ _ _ Hp Hi) as [Hl (o & l' & El & Ht)].
+        unfold th_hist_inv. rewrite Hp', Hpj, lin_res_app. cbn. rewrite Nat.eqb_refl.
+        split; [cbn; congruence|]. exists o, l'. rewrite El. now split.
+      * unfold th_hist_inv in Hi. rewrite Hp in Hi. cbn in Hi. destruct Hi as [Hl (o & l' & El & Ht)].
+        unfold th_hist_inv. rewrite Hp', Hpj, lin_res_app. cbn. split; [congruence|].
+        rewrite El. now split.
+      * destruct (running_inv _ _ _ Hp Hi) as [Hl (o & l' & El & Ht)].
+        unfold th_hist_inv. rewrite Hp', Hpj, lin_res_app. cbn. rewrite Nat.eqb_refl.
+        split; [cbn; congruence|]. rewrite El. now split.
+      * unfold th_hist_inv in Hi. rewrite Hp in Hi. cbn in Hi. destruct Hi as [Hl Ht].
+        unfold th_hist_inv. rewrite Hp', Hpj, lin_res_app. cbn. rewrite Nat.eqb_refl.
+        split; [cbn; congruence|]. now split.
     + rewrite (nth_upd_other _ _ _ _ _ Hth Hne) in Hu.
+      pose proof (H1 _ _ Hu) as Hi. unfold th_hist_inv in *.
       unfold proj. rewrite filter_app. fold (proj u evs) (proj u (hist c)).
       rewrite (proj_other _ _ _ Hne Htid), lin_res_app, (lin_res_other _ _ _ Hne Htid). cbn [app].
-      exact (H1 _ _ Hu).
+      exact Hi.
   - intros u Hu. rewrite Ethr in Hu. rewrite Ehist.
     assert (Hne : u <> t).
     { intros ->. rewrite (nth_upd_same _ _ _ _ Hth) in Hu. discriminate. }
@@ -246,7 +282,7 @@ Lemma init_HistInv ch s0 ths : HistInv (init ch s0 ths).
 Proof.
   split.
   - intros t th Hth. cbn [init thr] in Hth. destruct (nth_error_map_inv _ _ _ _ Hth) as (p & _ & <-).
-    cbn. split; [reflexivity|]. split; [intros _; exact I|]. intros H. now elim H.
+    cbn. split; [reflexivity|exact I].
   - reflexivity.
 Qed.
 
@@ -255,7 +291,7 @@ Proof. intros c. apply fold_left_inv. intros a b. apply step_HistInv. Qed.
 
 Theorem lifo_results ch s0 ths sched t th :
   let c := run true (init ch s0 ths) sched in
-  nth_error (thr c) t = Some th -> t_res th = lin_res t (hist c).
+  nth_error (thr c) t = Some th -> lin_res t (hist c) = pending (t_pc th) ++ t_res th.
 Proof.
   intros c Hth. destruct (run_HistInv true sched _ (init_HistInv ch s0 ths)) as [H1 _].
   now destruct (H1 _ _ Hth).
@@ -266,28 +302,30 @@ Theorem lifo_lp_within ch s0 ths sched t :
 Proof.
   destruct (run_HistInv true sched _ (init_HistInv ch s0 ths)) as [H1 H2].
   destruct (nth_error (thr (run true (init ch s0 ths) sched)) t) as [th|] eqn:Hth.
-  - destruct (H1 _ _ Hth) as (_ & Hi & Hn). destruct (t_pc th) eqn:Epc.
-    + left. now apply Hi.
-    + right. destruct Hn as (o & l' & E & Hl); [discriminate|]. now exists t, o, l'.
-    + right. destruct Hn as (o & l' & E & Hl); [discriminate|]. now exists t, o, l'.
-    + right. destruct Hn as (o & l' & E & Hl); [discriminate|]. now exists t, o, l'.
+  - destruct (H1 _ _ Hth) as [_ Hi]. unfold thread_hist_ok.
+    destruct (t_pc th); try (right; left; destruct Hi as (o & l' & E & Hl); now exists t, o, l').
+    + now left.
+    + right. right. destruct Hi as (o & l' & E & Hl). now exists t, a, o, l'.
   - left. rewrite (H2 _ Hth). exact I.
 Qed.
 
 (* ---- the ABA counter counts successful pops: it is bounded by the number of steps ---- *)
 Lemma step_counter c t : hcnt c <= hcnt (step true c t) <= hcnt c + 1.
 Proof.
-  unfold step. destruct (nth_error (thr c) t) as [th|]; [|lia].
-  destruct (t_pc th) as [|xs h|try k|try k it nx].
+  unfold step. destruct (nth_error (thr c) t) as [th|]; [|lia]. cbn zeta.
+  destruct (t_pc th) as [|xs|xs h|try k|try k it nx| |a].
   - destruct (t_ops th) as [|o ops]; [lia|]. destruct o as [j|n| | |]; cbn [hcnt]; try lia.
     + destruct (pick j (t_own th)) as [[x own']|]; cbn [hcnt]; lia.
     + destruct (firstn n (t_own th)); cbn [hcnt]; lia.
+  - cbn [hcnt]; lia.
   - destruct (opt_eqb (hitem c) h); cbn [hcnt]; lia.
   - destruct (hitem c); cbn [hcnt]; lia.
   - destruct (k =? hcnt c) eqn:E; cbn [andb].
     + apply Z.eqb_eq in E. destruct (opt_eqb (hitem c) (Some it)); [cbn [hcnt]; lia|].
       destruct try; cbn [hcnt]; lia.
     + destruct try; cbn [hcnt]; lia.
+  - cbn [hcnt]; lia.
+  - destruct a as [xs|[it|]| |b]; cbn [hcnt]; lia.
 Qed.
 
 Theorem lifo_counter_bound ch s0 ths sched :
